@@ -17,14 +17,13 @@ theorem C14_stop_irrelevant (bs : List Nat) (s : Nat) (h : bs.length ≤ s + 2) 
 
 /-- the stream entry point and the memory-mapped single-threaded entry point build the same store -/
 theorem C14_reader_eq_mmap (c : Codec) (d : Decls) (rm : RealMap) (body : List Nat) (fileLen : Nat)
-    (hf : body.length ≤ fileLen) (hne : body ≠ []) :
+    (hf : body.length ≤ fileLen) :
     (match readValues c d rm body (.reader fileLen), readValues c d rm body .single with
      | .ok a, .ok b => a.timeRev = b.timeRev ∧ a.blocksRev.length = b.blocksRev.length
      | .err, .err => True
      | .panic, .panic => True
      | _, _ => False) := by
-  have hlen : body.length ≠ 0 := by intro h; exact hne (List.eq_nil_of_length_eq_zero h)
-  simp only [readValues, hlen, ↓reduceIte, readStream]
+  simp only [readValues, readStream]
   rw [C14_stop_irrelevant body fileLen (by omega), C14_stop_irrelevant body (body.length - 1) (by omega)]
   cases applyEvs c d rm { enc := newEnc d.sigTypes, isFirst := true }
       (match parseBody none body with | .ok e => e | .err e => e) with
